@@ -315,7 +315,9 @@ theorem oriCover_pkg {s : DSymData} (hs : ValidSym s) (hsz : 1 ≤ s.size) (hdim
       (∀ i d, i < s.dim → 1 ≤ d → d ≤ 2 * s.size →
         c.rPartial i (i + 1) d = s.rPartial i (i + 1) (cproj s.size d) ∧
         c.vPartial i (i + 1) d = s.vPartial i (i + 1) (cproj s.size d) ∧
-        c.mPartial i (i + 1) d = s.mPartial i (i + 1) (cproj s.size d)) := by
+        c.mPartial i (i + 1) d = s.mPartial i (i + 1) (cproj s.size d)) ∧
+      (∀ i j d r, i ≤ s.dim → j ≤ s.dim → 1 ≤ d → d ≤ 2 * s.size →
+        IsLeastPeriod s.dset i j (cproj s.size d) r → IsLeastPeriod c.dset i j d r) := by
   have hσ := oriSheetMap_compat s hs.set s.view.partialOrientation
   obtain ⟨c, hc, hsize, hdim', hct, hop, _⟩ := cover_ok s hs.toValidTables hsz hdim (n := 2) (by decide) hσ
   have hpin : s.view.PInvol := by rw [s.view_eq]; exact hs.set.pinvol
@@ -327,7 +329,8 @@ theorem oriCover_pkg {s : DSymData} (hs : ValidSym s) (hsz : 1 ≤ s.size) (hdim
   cases hc'
   have hstep := fun i d hi h1 h2 =>
     dc_step (s := s) (c := c.dset) hs.set hsz hori hop (i := i) (d := d) hi h1 h2
-  refine ⟨c, hoc, hsize, hdim', ⟨hct, ?_⟩, hstep, hdeg⟩
+  refine ⟨c, hoc, hsize, hdim', ⟨hct, ?_⟩, hstep, hdeg,
+    fun i j d r hi hj h1 h2 hr => dc_leastPeriod hs.set hsz hori hct.set hsize hdim' hop hi hj h1 h2 hr⟩
   -- far operations commute: same projection, same colour
   intro i j d hij hj h1 h2
   have hj' : j ≤ s.dim := by rw [← hdim']; exact hj
@@ -438,7 +441,7 @@ theorem curvature_of_orientedCover {s : DSymData} (rs : Rep) (g : Good2d ⟨s, r
     refine ⟨s, this, gs, _, _, curvature_eq_chamberSum g, curvature_eq_chamberSum gs, ?_⟩
     rw [if_pos ho]; simp
   · have ho' : s.view.isOriented = false := by simpa using ho
-    obtain ⟨c, hoc, hsize, hcdim, hcv, _, hdeg⟩ := oriCover_pkg hs hsz (by omega) ho'
+    obtain ⟨c, hoc, hsize, hcdim, hcv, _, hdeg, _⟩ := oriCover_pkg hs hsz (by omega) ho'
     obtain ⟨hcomp, hsum⟩ := cover_chamberSum hs hdim g.complete hsz 2 hcv hsize hcdim
       (fun i d hi h1 h2 => (hdeg i d hi h1 h2).2.2)
     have gc : Good2d ⟨c, .partialSym⟩ := ⟨hcv, by show c.dim = 2; rw [hcdim]; exact hdim, hcomp⟩
